@@ -24,6 +24,8 @@ TNext ==
     \/ (Is("XJoin") /\ Keep /\ Ev.ret = 0 /\ Ev.term = 1 /\ Join(Ev.s))
     \/ (Is("XRevive") /\ Keep /\ Ev.ret = 0 /\ Revive(Ev.s))
     \/ (Is("XFree") /\ Keep /\ Ev.ret = 0 /\ Free(Ev.s))
+    \* a burst of concurrent create/join/free triples, all completed: the set of streams is what it was
+    \/ (Is("XStress") /\ Keep /\ Ev.creates = Ev.frees /\ UNCHANGED vars)
     \/ (Is("XNum") /\ Keep /\ Ev.n = Cardinality(DOMAIN live) /\ UNCHANGED vars)
     \/ (Is("XRank") /\ Keep /\ Ev.rank = RankOf(Ev.s) /\ UNCHANGED vars)
     \* work pushed to a live, running stream completes there and sees the stream's rank
